@@ -706,14 +706,42 @@ func runJournalTrips(c *Ctx) {
 	c.Check(okVanish, "ACCT", fname, "trips missing from a feed are marked past with that feed's time", p.pos(vanishLoop.Header.Instrs[0].Pos()), "for uid in previous feed's set: skip iff present now, else trips[uid].markPast(feed.CreatedAt); the set is replaced each feed", whyV)
 	// K4: selection: an entry is returned exactly when !StartTime.Before(start) && !end.Before(StartTime) && IsAssigned
 	var selLoop *Loop
-	for _, l := range loops {
-		if feedLoop.Blocks[l.Header] {
+	selB := b
+	for _, g := range c.regionOf(bj) {
+		if g == tu || g == tm || g.Parent() != nil {
 			continue
 		}
-		for _, in := range l.Header.Instrs {
-			if nx, ok := in.(*ssa.Next); ok {
-				if r, ok := nx.Iter.(*ssa.Range); ok && strings.HasSuffix(r.X.Type().String(), "journal.Trip") {
-					selLoop = l
+		ls := loops
+		if g != bj {
+			ls = naturalLoops(g)
+		}
+		for _, l := range ls {
+			if g == bj && feedLoop.Blocks[l.Header] {
+				continue
+			}
+			for _, in := range l.Header.Instrs {
+				if nx, ok := in.(*ssa.Next); ok {
+					if r, ok := nx.Iter.(*ssa.Range); ok && strings.HasSuffix(r.X.Type().String(), "journal.Trip") {
+						hasAppend := false
+						for blk := range l.Blocks {
+							for _, in2 := range blk.Instrs {
+								if call, ok := in2.(*ssa.Call); ok && isBuiltin(call, "append") {
+									hasAppend = true
+								}
+							}
+						}
+						if !hasAppend {
+							continue
+						}
+						selLoop = l
+						if g != bj {
+							// the selection lives in a helper: read its conditions with the helper's parameters standing
+							// for what BuildJournal passes
+							if sb := b.atCallSite(g, c.regionOf(bj)); sb != nil {
+								selB = sb
+							}
+						}
+					}
 				}
 			}
 		}
@@ -738,7 +766,7 @@ func runJournalTrips(c *Ctx) {
 				if ce.Composite || ce.If == nil || !selLoop.Blocks[ce.If.Block()] || ce.If.Block() == selLoop.Header {
 					continue
 				}
-				e := b.bind(ce.Cond)
+				e := selB.bind(ce.Cond)
 				if !ce.Val {
 					e = "!" + e
 				}
